@@ -1099,7 +1099,16 @@ where
 
             // Refresh pool information, something might have changed.
             pool = self.get_pool().await?;
+
+            // A reload may have changed the pool's default role: a client that is still on the
+            // old default (it did not pick a role itself) follows the new one.
+            let previous_default_role = query_router.pool_settings().default_role;
             query_router.update_pool_settings(&pool.settings);
+            if pool.settings.default_role != previous_default_role
+                && query_router.role() == previous_default_role
+            {
+                query_router.set_default_role();
+            }
 
             debug!("Waiting for connection from pool");
             if !self.admin {
